@@ -8,6 +8,8 @@ NOT_YET = {}
 _TB = ("Trusted: Lean kernel + propext/Classical.choice/Quot.sound; hand-written models (checked against the code by the "
        "correspondence engine on every run, not assumed); generators and canonicalisers. ")
 ENGINES = [
+    {"name": "decode", "path": "go/cmd/corr/decode.go", "serves_properties": ["C03"],
+     "kind_free_text": "differential: query string / urlencoded body / cookies / headers through the real transaction vs Lean parsers"},
     {"name": "audit", "path": "go/cmd/corr/audit.go", "serves_properties": ["C19"],
      "kind_free_text": "differential: audit decision/contents/parts through the real serial writer vs Lean model; auditconc: concurrent writers, line integrity"},
     {"name": "memo", "path": "go/cmd/corr/memo.go", "serves_properties": ["C13"],
@@ -67,6 +69,14 @@ CLAIMED = {
              "file of whole-record appends splits back into exactly the records (no interleaving, none lost). Tied to /repo "
              "by `audit` (real serial writer, JSON and Native) and `auditconc` (concurrent writers).",
         note=_ENG_NOTE + " Formatters/encoding/json trusted.", ref="6/C19", engine="audit,auditconc"),
+    "C03": dict(
+        text="Lean 4 theorems: percent-decoding inverts an independent encoder for every byte string and is applied once "
+             "(C03_unescape_enc, C03_once); for every list of (name, value) byte strings the parsed query string / "
+             "urlencoded body is exactly that list in order (C03_query_roundtrip: nothing dropped, merged, re-attributed); a "
+             "header is stored byte-exact and found under every spelling of its name (C03_header_store). Tied to /repo by "
+             "`decode` through ProcessURI, the urlencoded body processor, the Cookie header and AddRequestHeader.",
+        note=_TB + "Partial: multipart/JSON/XML parsing (mime/multipart, encoding/xml, gjson) is outside the model; "
+             "url.ParseRequestURI is a parameter.", ref="6/C03", engine="decode"),
     "C09": dict(
         text="Lean 4 theorems: the state after a link is the left fold of 'update MATCHED_*, then run every non-disruptive "
              "action once' over exactly the link's matches, in order (so once per match, macros expanded at that moment); "
